@@ -135,6 +135,25 @@ def _ops_check(d, old, new, path, labels, depth=0):
         labels.append("depth2-two-ops")
 
 
+def _unchanged_check(d, old, new, ctx, path):
+    """an entry reported unchanged hides nothing: no changed descendant, and its (known) subtree is the same on both sides"""
+    for op, row, ch, _ in d:
+        if str(op) == "unchanged":
+            def walk(es, p):
+                for o2, r2, c2, _m in es:
+                    if str(o2) != "unchanged":
+                        raise Violation("unchanged-hides-change", f"{p!r} is reported unchanged but contains ({o2}, {r2!r})", {})
+                    walk(c2, p + (r2,))
+            walk(ch, path + (row,))
+            cl = ctx.classify(row)
+            if cl is not None and row in old and row in new:
+                if RL.plain(restrict(old[row], ctx.child(cl[0]))) != RL.plain(restrict(new[row], ctx.child(cl[0]))):
+                    raise Violation("unchanged-hides-change", f"{path + (row,)!r} is reported unchanged but its content differs between old and new", {})
+        cl = ctx.classify(row)
+        if cl is not None:
+            _unchanged_check(ch, old.get(row, {}), new.get(row, {}), ctx.child(cl[0]), path + (row,))
+
+
 def _ordered_check(d, old, new, ctx, path, labels):
     group = [(str(op), row) for op, row, ch, _ in d if (ctx.classify(row) or [{}])[0].get("ordered")]
     if group:
@@ -199,6 +218,7 @@ def check(case):
         side = "old" if RL.plain(po) != RL.plain(ro) else "new"
         raise Violation("projection", f"dropping {'added' if side == 'old' else 'removed'} lines from the diff does not give the {side} configuration "
                         f"(diff side {RL.plain(po if side == 'old' else pn)!r} vs {RL.plain(ro if side == 'old' else rn)!r})"[:700], det)
+    _unchanged_check(d, old, new, ctx, ())
     _ops_check(d, old, new, (), labels)
     _ordered_check(d, old, new, ctx, (), labels)
     for x in (old, new):
